@@ -221,14 +221,18 @@ def crcvRun (single : Bool) (body : Bytes) (size2 : Option Nat) :
   | it :: rest, st, acc =>
     match it with
     | num :: m :: szx :: etag :: fmt :: tl =>
-      if szx > 6 ∨ m > 1 ∨ etag > 255 ∨ fmt > 255 ∨ tl.length > 1 then ("bad-op" :: acc).reverse else
+      if szx > 6 ∨ m > 1 ∨ etag > 255 ∨ fmt > 255 ∨ tl.length > 2 then ("bad-op" :: acc).reverse else
       let chunk := 2 ^ (szx + 4)
       let off := if num * chunk > body.length then body.length else num * chunk
       let plen0 := if body.length - off < chunk then body.length - off else chunk
       let plen := match tl with
-        | [l] => if l ≤ body.length - off then l else plen0
+        | l :: _ => if l ≤ body.length - off then l else plen0
         | _ => plen0
-      let r : Resp := { blk := some (num, m, szx), payload := (body.drop off).take plen, size2 := size2,
+      -- 7th field: Size2 of this response (0 = no option, n = Size2 n-1); absent = the line's Size2
+      let sz2 := match tl with
+        | [_, s2] => if s2 = 0 then none else some (s2 - 1)
+        | _ => size2
+      let r : Resp := { blk := some (num, m, szx), payload := (body.drop off).take plen, size2 := sz2,
                         etag := if etag = 0 then none else some [UInt8.ofNat etag], fmt := fmt }
       let (st', o) := crcvStep single Coap.Generated.rblockCnt 0 st r
       crcvRun single body size2 rest st' ((showCrcvOut o ++ "/" ++ showCrcvState st') :: acc)
